@@ -26,7 +26,7 @@ ASSUMPTIONS = [
 COMPONENTS = dict(real='pytableaux.lang.parsing (both parsers), lang.collect.Predicates, lang.writing (to render workloads)', stub='none')
 
 def plan(tier):
-    return dict(runs=8000 if tier == 'quick' else 360000, timeout=300 if tier == 'quick' else 5400)
+    return dict(runs=8000 if tier == 'quick' else 360000, timeout=900 if tier == 'quick' else 5400)
 
 def make_spec(ctx):
     rng = ctx.rng('workload')
